@@ -191,6 +191,8 @@ def units(tier):
     th = tier == 'thorough'
     us = [Unit('session/e4-i0', lambda ctx: h_session(ctx, 4, 0), must_cover=('established', 'never-established', 'update-written', 'api-up'), max_paths=300000, max_seconds=600, weight=50),
           Unit('session/e3-i1', lambda ctx: h_session(ctx, 3, 1), must_cover=('established', 'never-established'), max_paths=300000, max_seconds=600, weight=80)]
+    # negotiated Hold Time 0 (no keepalive timers): the OPENCONFIRM -> ESTABLISHED step must still wait for the peer's KEEPALIVE
+    us.append(Unit('session/e3-i0-h0', lambda ctx: h_session(ctx, 3, 0, hold=0), must_cover=('established', 'never-established'), max_paths=300000, max_seconds=600, weight=30))
     if th:
         us.append(Unit('session/e5-i0', lambda ctx: h_session(ctx, 5, 0), must_cover=('established',), max_paths=2000000, max_seconds=1500, weight=200))
         us.append(Unit('session/e4-i1-h0', lambda ctx: h_session(ctx, 4, 1, hold=0), must_cover=('established',), max_paths=2000000, max_seconds=1500, weight=200))
